@@ -126,8 +126,13 @@ C06(e) ==
 (* C09 (Failover part): every backend access a Get (or its background     *)
 (* build) makes is for the key the caller passed, whatever the caller does  *)
 (* with its buffer after Get returned.                                      *)
+OthersVals(k) == UNION {At(produced, k2, {}) \cup At(stored, k2, {}) : k2 \in (DOMAIN produced \cup DOMAIN stored) \ {k}}
+OthersErrs(k) == UNION {At(berrs, k2, {}) : k2 \in DOMAIN berrs \ {k}}
 C09(e) ==
-  e.ev \in {"beRead", "beWrite"} /\ e.p \in DOMAIN cellOf => e.k = cellOf[e.p].k
+  /\ e.ev \in {"beRead", "beWrite"} /\ e.p \in DOMAIN cellOf => e.k = cellOf[e.p].k
+  \* a Get on k never returns what belongs to another key only (value or builder error), equal hashes or not
+  /\ (e.ev = "ret" /\ e.err = "" /\ e.v \in OthersVals(e.k)) => e.v \in At(produced, e.k, {}) \cup At(stored, e.k, {})
+  /\ (e.ev = "ret" /\ e.err # "" /\ e.err \in OthersErrs(e.k)) => e.err \in At(berrs, e.k, {})
 
 C18(e) ==
   e.ev = "metric" =>
